@@ -435,6 +435,31 @@ def equiv_case(ctx, w):
     ctx.evaluations += n - 1
 
 
+def mismatch_flags_case(ctx, fl):
+    """a (script, key) pair that does not recompute to the root, against a lock carrying every possible sigflags byte (the
+    byte that follows the instruction), with nothing / true / false underneath the pair: never authorizes, never runs the script"""
+    seed = ctx.seed
+    pub = refed.public_key(env.sym(seed, 'c5.K0'))
+    other = refed.public_key(env.sym(seed, 'c5.K1'))
+    s_ok, s_bad = committed_script(1), committed_script(2)
+    root, _ = ref_root(pub, s_ok)
+    lock = P(root) + op('TAPROOT') + bytes([fl])
+    n = 0
+    for under in (b'', op('TRUE'), op('FALSE'), op('TRUE') + op('TRUE')):
+        for what, w in (('wrong script', P(s_bad) + P(pub)), ('wrong key', P(s_ok) + P(other)), ('both wrong', P(s_bad) + P(other))):
+            n += 1
+            v, log = run_auth([under + w, lock])
+            ctx.ran()
+            ctx.trans(2)
+            ctx.state(('mismatch', fl, under, what))
+            ctx.outcome('mismatch:%s' % v)
+            if v is not False or log != []:
+                ctx.violation({'clause': 'a pair that does not recompute to the root is refused and its script does not run',
+                               'corruption': what, 'kind': 'accepts' if v is True else 'other'},
+                              f'sigflags byte {fl:02x}, {what}, {len(under)} item(s) underneath: {v!r} recorder {log}')
+    ctx.evaluations += n - 1
+
+
 def budget_case(ctx, case):
     """call-budget boundary: the witness first spends s top-level calls under a call-stack limit L. Each lock needs the
     nesting depth of its own CALL / EVAL instructions on the path taken (measured under a large limit); with at least
@@ -497,6 +522,8 @@ def blocks(tier, seed):
         Block('B2_sigfield_subsets', [tuple(i + 1 for i in range(8) if b >> i & 1) for b in range(256)], subset_case,
               'all 256 subsets of the eight sigfields x flags {00, 55, aa}: builder signature, key-path verdict, every present field changed',
               nshards=64),
+        Block('C2_mismatch_x_flag_bytes', list(range(256)), mismatch_flags_case,
+              'all 256 sigflags bytes x wrong script / wrong key / both x {nothing, true, false, two items} underneath', nshards=64),
         Block('E3_call_budget_boundary', [(L, p) for L in (1, 2, 3, 5, 16) for p in ('script', 'key')], budget_case,
               'call-stack limit L x witness spending 0..L top-level calls x script / key path x native / non-native', nshards=10),
         Block('E2_small_order_key_components', list(range(len(SMALL_ORDER))), torsion_case,
